@@ -16,6 +16,7 @@ PROP = {
         "the same (method, URL pattern) pair is declared at most once per set (a repeated pair is last-writer-wins by construction and is not generated)",
         "every declaration in a set uses its own remedy type, so checkForDuplicates does not reject the set (rejection itself is order-dependent and outside this statement)",
         "request URLs contain no empty, '{..}'-shaped or '*' segments",
+        "path parameters reported in addition to those of the winning pattern are accepted when they are the request's segment at a position where a declared pattern carries that parameter (the lookup keeps the parameters of a branch it abandoned for an ancestor wildcard)",
         "the selection by method out of the looked-up map (runner.getRemedies/getDiagnoses, unexported) is restated in the harness; "
         "TestDispatchAgreesWithSelection cross-checks that restatement against runner.DispatchOnRequest with fixed_response markers",
     ],
@@ -25,13 +26,12 @@ PROP = {
         {"pkg": "c13", "test": "TestPolicyTreeSmallScope", "kind": "plain"},
         {"pkg": "c13", "test": "TestWitnessAliasedPolicyMap", "kind": "plain"},
         {"pkg": "c13", "test": "TestWitnessGreedyDescent", "kind": "plain"},
-        {"pkg": "c13", "test": "TestWitnessNormalizedURLOfWildcard", "kind": "plain"},
     ],
     "technique": ("property-based testing (rapid) + bounded-exhaustive small-scope enumeration; oracle = independent segment-wise matcher "
                   "with left-to-right specificity (literal > parameter > wildcard, with back-tracking), evaluated under every reading the "
                   "statement leaves open (specificity over all methods / per method, /* covering >=0 / >=1 segments) and required to hold "
-                  "consistently over all orders and requests of a set; metamorphic order-independence over permutations; three defect "
-                  "models (shared policy map, greedy descent, path-derived normalised URL) attribute deviations to listed findings"),
+                  "consistently over all orders and requests of a set; metamorphic order-independence over permutations; two defect "
+                  "models (shared policy map, greedy descent) attribute deviations to listed findings"),
     "level_text": ("generated declaration sets are built by the real BuildEndpointPolicyTree in many orders and looked up through the real trie; "
                    "applied plugin names, NormalizedURL and PathParams are compared with an independent reference. All sets of up to 3 "
                    "declarations over 6 patterns x 2 methods are enumerated in all orders; larger sets and alphabets are sampled; this is "
